@@ -285,7 +285,13 @@ class Context(dict):
 
         """
         if input_string:
-            return eval(input_string, self._pystring_namespace)
+            # assignment expressions (walrus) in the expression bind in the
+            # namespace the eval runs in. Put a throw-away scope in front of
+            # the context so (x := ...) can't add or rebind a context key.
+            return eval(input_string,
+                        _ChainMapPretendDict({},
+                                             self,
+                                             self._pystring_globals))
         else:
             # Empty input raises cryptic EOF syntax err, this more human
             # friendly
